@@ -5,7 +5,6 @@ import (
 	"context"
 	"fmt"
 	"net"
-	"strings"
 	"sync"
 	"time"
 
@@ -565,7 +564,10 @@ func (w *World) serverLoop() {
 			w.mu.Lock()
 			w.sessS = append(w.sessS, &Session{Side: "server", Index: len(w.sessS), At: w.s.Now(), HsErr: "accept: " + err.Error(), ClosedAt: w.s.Now()})
 			w.mu.Unlock()
-			if strings.Contains(err.Error(), "EOF") {
+			// Like grpc.Server.Serve: an error that says it is temporary
+			// (every failure to set a connection up does) means "call
+			// Accept again"; anything else means the listener is closed.
+			if te, ok := err.(interface{ Temporary() bool }); !ok || !te.Temporary() {
 				break
 			}
 			time.Sleep(time.Second)
